@@ -79,8 +79,12 @@ def gen(rng, tier, index):
                    'exc': rng.choice(['value', 'filter', 'base', 'key'])}]
     trace = ['parallel_utils', 'core'] if rng.random() < 0.3 else ['parallel_utils']
     # key iteration: the worker then iterates a generator object, not a dataset
-    items = bool(a.items is not False and desc['source']['kind'] == 'dict'
-                 and rng.random() < 0.25)
+    pi_ = pargen.par_index(desc)
+    pre = pargen.abs_eval({'source': desc['source'], 'stages': desc['stages'][:pi_]})
+    last = desc['stages'][pi_]
+    items = bool(pre is not None and pre.items and pi_ == len(desc['stages']) - 1
+                 and (last['op'] == 'parmap' or not pargen.is_pool(last))
+                 and not last.get('catch') and rng.random() < 0.5)
     cases = []
     ks = list(range(0, nout + 2)) + [None]
     for k in ks:
